@@ -83,6 +83,10 @@ def mutations(c, junk):
         ("setitem-key", lambda: c.__setitem__(next(iter(c)), junk)),
         ("delitem-key", lambda: c.__delitem__(next(iter(c)))),
         ("iadd", lambda: c.__iadd__([junk])),
+        ("ior", lambda: c.__ior__({junk: junk})),           # the in-place merge  m |= {...}  of mappings and sets
+        ("ior-set", lambda: c.__ior__({junk})),
+        ("iand", lambda: c.__iand__(set())),
+        ("imul", lambda: c.__imul__(2)),
     ]
 
 
